@@ -421,6 +421,16 @@ impl<V: MapStored> CwMap<V> {
                 forall|k: Seq<u8>| V::m_get(store@, k) is Some ==> exists|i: int| 0 <= i < r@.len() && #[trigger] r@[i]@ == k,
                 forall|i: int, j: int| 0 <= i < j < r@.len() ==> r@[i]@ != r@[j]@,
     { unimplemented!() }
+    /// rule R7 with `map_while`: the keys, in key order, up to the first record that does not deserialise as V
+    /// (key order is not part of the ghost model: all that is promised is a duplicate-free list of loading keys that is
+    /// complete when every record of the namespace loads)
+    #[verifier::external_body]
+    pub fn keys_while_load(&self, store: &Storage) -> (r: Vec<Vec<u8>>)
+        ensures forall|i: int| 0 <= i < r@.len() ==> V::m_get(store@, #[trigger] r@[i]@) is Some,
+                (forall|k: Seq<u8>| #[trigger] V::m_raw(store@, k) ==> V::m_get(store@, k) is Some) ==>
+                    forall|k: Seq<u8>| V::m_get(store@, k) is Some ==> exists|i: int| 0 <= i < r@.len() && #[trigger] r@[i]@ == k,
+                forall|i: int, j: int| 0 <= i < j < r@.len() ==> r@[i]@ != r@[j]@,
+    { unimplemented!() }
     /// cw-storage-plus: `let input = self.may_load(..)?; let output = action(input)?; self.save(.., &output)?; Ok(output)`
     #[verifier::external_body]
     pub fn update<A: FnOnce(Option<V>) -> Result<V, E>, E>(&self, store: &mut Storage, k: &[u8], action: A) -> (r: Result<V, E>)
